@@ -4438,6 +4438,8 @@ class Pointer(Subconstruct):
         return 0
 
     def _emitparse(self, code):
+        if self.stream is not None:
+            raise NotImplementedError("Pointer does not compile the stream parameter")
         code.append(f"""
             def parse_pointer(io, offset, func):
                 fallback = io.tell()
@@ -4449,6 +4451,8 @@ class Pointer(Subconstruct):
         return f"parse_pointer(io, {self.offset!r}, lambda: {self.subcon._compileparse(code)})"
 
     def _emitbuild(self, code):
+        if self.stream is not None:
+            raise NotImplementedError("Pointer does not compile the stream parameter")
         code.append(f"""
             def build_pointer(obj, io, offset, func):
                 fallback = io.tell()
